@@ -101,11 +101,13 @@ type printer struct {
 // BlockOvers counts block comments written over a line break between two siblings, EmptyOpens the
 // empty containers annotated behind their opening bracket, BlocksBeforeRules the comments between
 // the slashes of an inline annotation and its rule object.
+var BlockOversBehindAnnotation int64
+
 var BlockOvers, EmptyOpens, BlocksBeforeRules, TwoNotes, EmptyAfters, Lonelies int64
 
 // blockOver writes, behind the comma that follows the previous sibling, a block comment that runs
 // over a line break; the next sibling then starts on the line the comment closes on. Not behind an
-// inline annotation or a user comment (there the text up to the line end is theirs).
+// user comment (there the text up to the line end is the comment's).
 func (p *printer) blockOver(level int) bool {
 	if p.st.BlockOverLines <= 0 {
 		return false
@@ -114,12 +116,22 @@ func (p *printer) blockOver(level int) bool {
 	for start > 0 && p.b[start-1] != '\n' && p.b[start-1] != '\r' {
 		start--
 	}
-	if line := string(p.b[start:]); strings.Contains(line, "//") || strings.Contains(line, "#") {
+	line := string(p.b[start:])
+	if strings.Contains(line, "#") {
 		return false
 	}
 	p.bo++
 	if p.bo%p.st.BlockOverLines != 0 {
 		return false
+	}
+	if strings.Contains(line, "//") {
+		// behind an inline annotation the block stands where a # comment may stand (behind the rule
+		// object or the note): it ends the annotation like the line break would, and the sibling
+		// starts behind its closer on the next line. Every other opportunity only.
+		if (p.bo/p.st.BlockOverLines)%2 == 0 {
+			return false
+		}
+		BlockOversBehindAnnotation++
 	}
 	p.w([]string{" ### about the next one:", " ###", "###"}[(p.bo/p.st.BlockOverLines)%3])
 	p.w(p.st.NL)
